@@ -146,17 +146,21 @@ def real_cell(cell):
     wc, sig_name, phase, app, bind = cell
     if phase == "keepalive-idle" and wc == "sync":
         return "skip"
-    binds = "tcp" if bind == "two" else bind
+    second = bind == "two-second"       # the request travels over the second of two listeners, the first one stays idle
+    mixed = bind == "tcp+unix"          # a TCP listener listed before a unix one
+    if second:
+        bind = "two"
+    binds = "tcp" if bind in ("two", "tcp+unix") else bind
     late = app == "finishes-late"
     graceful_s = GRACEFUL + 2 if late else GRACEFUL
     if late:
         app = "finishes"
     s = rp.Server(worker_class=wc, workers=1, bind=binds, graceful_timeout=graceful_s, timeout=30, keepalive=5,
-                  threads=2 if wc == "gthread" else None, extra_binds=1 if bind == "two" else 0)
+                  threads=2 if wc == "gthread" else None, extra_binds=1 if bind == "two" else 0, extra_unix=mixed)
     try:
         if not s.start():
             return ("infrastructure", "server did not start: %s" % s.log_text()[-300:])
-        c = s.connect()
+        c = s.connect(extra=0) if second else s.connect()
         gate_name = None
         expect_body = None
         if phase == "accepted-idle":
@@ -229,6 +233,8 @@ def real_cell(cell):
                 v = v or ("pidfile-left", "pid file still exists")
             if bind == "unix" and os.path.exists(s.sockpath):
                 v = v or ("unix-socket-left", "unix socket file still exists")
+            if mixed and os.path.exists(s.extra_unix_path):
+                v = v or ("unix-socket-left", "unix socket file of the second listener still exists (binds: tcp, unix)")
         if gate_name and app != "finishes":
             s.gate.release(gate_name)
         try:
@@ -253,7 +259,10 @@ def real_cells(thorough):
             for phase in ("app-running", "response-partial", "head-partial"):
                 cells.append((wc, "TERM", phase, "finishes", "two"))
                 cells.append((wc, "TERM", phase, "finishes-late", "two"))
+                cells.append((wc, "TERM", phase, "finishes-late", "two-second"))
                 cells.append((wc, "TERM", phase, "finishes-late", "unix"))
+                cells.append((wc, "QUIT", phase, "finishes", "tcp+unix"))
+                cells.append((wc, "TERM", phase, "finishes", "tcp+unix"))
     else:
         for wc in classes:
             for phase in PHASES:
@@ -264,7 +273,9 @@ def real_cells(thorough):
             cells.append((wc, "INT", "keepalive-idle", "finishes", "tcp"))
             cells.append((wc, "TERM", "app-running", "finishes", "two"))
             cells.append((wc, "TERM", "app-running", "finishes-late", "two"))
+            cells.append((wc, "TERM", "app-running", "finishes-late", "two-second"))
             cells.append((wc, "TERM", "response-partial", "finishes-late", "tcp"))
+            cells.append((wc, "TERM", "accepted-idle", "finishes", "tcp+unix"))
     return [c for c in cells if not (c[2] == "keepalive-idle" and c[0] == "sync")]
 
 
